@@ -7,8 +7,9 @@ VERIF = '/verif'
 REPO = os.environ.get('VERIF_REPO', '/repo')
 CRATE = os.path.join(REPO, 'falcon-rust')
 BUILD = os.environ.get('VERIF_BUILD', '/verif/.build')
-EVID = '/verif/evidence'
-CEX = '/verif/counterexamples'
+# trials against a scratch tree must not overwrite the evidence / counterexamples of /repo
+EVID = '/verif/evidence' if REPO == '/repo' else os.path.join(BUILD, 'evidence')
+CEX = '/verif/counterexamples' if REPO == '/repo' else os.path.join(BUILD, 'counterexamples')
 GUARD = 'aszepieniec_falcon_rust_verif'
 NCPU = min(16, os.cpu_count() or 4)
 
